@@ -229,11 +229,11 @@ def staleReasons (s : JState) (prog : String) : List String :=
     (d.inherits.filter newerBin).map (fun i => s!"stale-binary-used {prog} dep=inherited-binary:{i}") ++
     -- a program inherited through another one, or a file such a program or a direct parent includes
     ((indirectInherits s prog).filter (fun q => newer q || newerBin q)).map
-      (fun q => s!"stale-binary-used-transitive {prog} dep=indirectly-inherited:{q}") ++
+      (fun q => s!"stale-binary-used {prog} dep=indirectly-inherited:{q}") ++
     ((d.inherits ++ indirectInherits s prog).flatMap (fun q => ((declOf s q).includes.filter newer).map
-      (fun i => s!"stale-binary-used-transitive {prog} dep=include-of-inherited:{q}:{i}"))) ++
+      (fun i => s!"stale-binary-used {prog} dep=include-of-inherited:{q}:{i}"))) ++
     (if newer simulPath then
-      (if s.simulTouchedSinceRestart then [s!"stale-simul-unsampled {prog} simul_efun touched while the driver runs"]
+      (if s.simulTouchedSinceRestart then [s!"stale-binary-used {prog} dep=simul_efun (touched while the driver runs)"]
        else [s!"stale-binary-used {prog} dep=simul_efun"]) else [])
 
 def caseLine (s : JState) (line : String) : JState :=
@@ -394,7 +394,7 @@ def traceLine (s : JState) (unitSeen : Nat) (line : String) : JState × Nat :=
         let s := (judgeUnit cmd (t :: rest)).foldl JState.flag s
         if unitSeen + 1 ≥ unitOutputsOf cmd then ({ s with pendingUnit := more }, 0) else (s, unitSeen + 1)
       | [] => (s.flag s!"unexpected {line}", unitSeen)
-    else (s.flag s!"failure {line}", unitSeen)
+    else (s.flag s!"failure-{t} {line}", unitSeen)
   | [] => (s, unitSeen)
 
 /-- the case lines are interleaved with the trace by position: a case line that produces output (`reload`, `restart`,
